@@ -55,6 +55,10 @@ partial def toBoolDD : DD Val → DD Bool
 
 /-! ### large product sets (closed form, no table) -/
 
+def sortedB : List Nat → Bool
+  | a :: b :: rest => decide (a < b) && sortedB (b :: rest)
+  | _ => true
+
 /-- `5:0134,4:012,...` (top variable first) -> per variable (size, sorted allowed values) -/
 def parseProd (str : String) : Option (List (Nat × List Nat)) :=
   (str.splitOn ",").mapM (fun part =>
@@ -62,35 +66,17 @@ def parseProd (str : String) : Option (List (Nat × List Nat)) :=
     | [sz, ds] => do
       let n ← sz.toNat?
       let vals := ds.toList.map (fun ch => ch.toNat - '0'.toNat)
-      if vals.all (· < n) && !vals.isEmpty then some (n, vals) else none
+      if vals.all (· < n) && !vals.isEmpty && sortedB vals then some (n, vals) else none
     | _ => none)
 
-/-- number of members -/
-def prodCard (p : List (Nat × List Nat)) : Nat := p.foldl (fun acc x => acc * x.2.length) 1
+/-- the closed form and its theorems (order isomorphism between [0, card) and the members) are in
+    MeddlyModel/Spec/ProdSet.lean; the transcript's description must be well-formed (sorted value lists) -/
+def prodCard (p : List (Nat × List Nat)) : Nat := ProdSet.card p
 
-/-- the member of rank `i` (lexicographic order, top variable most significant): mixed radix over the |A_k| -/
 def prodElem (p : List (Nat × List Nat)) (i : Int) : Option (List Nat) :=
-  if i < 0 || i ≥ (prodCard p : Int) then none
-  else
-    let rec go (p : List (Nat × List Nat)) (i : Nat) : List Nat :=
-      match p with
-      | [] => []
-      | (_, vals) :: rest =>
-        let w := prodCard rest
-        (vals.getD (i / w) 0) :: go rest (i % w)
-    some (go p i.toNat)
+  if i < 0 || i ≥ (prodCard p : Int) then none else some (ProdSet.elem p i.toNat)
 
-/-- rank of an assignment, `none` when it is not a member -/
-def prodRank (p : List (Nat × List Nat)) (ds : List Nat) : Option Nat :=
-  let rec go (p : List (Nat × List Nat)) (ds : List Nat) (acc : Nat) : Option Nat :=
-    match p, ds with
-    | [], [] => some acc
-    | (_, vals) :: rest, d :: ds' =>
-      match vals.findIdx? (· == d) with
-      | some q => go rest ds' (acc * vals.length + q)
-      | none => none
-    | _, _ => none
-  go p ds 0
+def prodRank (p : List (Nat × List Nat)) (ds : List Nat) : Option Nat := ProdSet.rank p ds
 
 def stepProd (s : St) (ln : Nat) (toks : List String) : Option St :=
   match toks with
